@@ -191,6 +191,9 @@ func C08(c *core.Ctx) {
 			// annotation variety: empty target list, both annotations in either order, multi-line description
 			t += "\n@performance()\n2020-05-01 \"empty targets\"\nAssets:A Assets:B 1.50 CHF\n\n@accrue monthly 2020-01-01 2020-03-31 Assets:Accrual\n@performance( USD ,CHF )\n2020-05-02 \"two\nlines\"\nAssets:A  Expenses:B   2.000 CHF\n"
 		}
+		if k%50 == 7 {
+			t = "\ufeff" + t
+		}
 		if !seen[t] {
 			seen[t] = true
 			texts = append(texts, t)
